@@ -685,6 +685,9 @@ class Shape(object):
         t1 = ct1 = 0.0  # prevent warnings about use-before-assign
         collect_stats = bool(executor.debug)
 
+        # Severity waivers (allow_infos/allow_warnings) relax the verdict of the shapes the validator runs
+        # directly. Shapes consulted by another shape's constraint keep plain SHACL conformance.
+        top_level = _evaluation_path is None
         if _evaluation_path is None:
             _evaluation_path = []
         else:
@@ -726,21 +729,25 @@ class Shape(object):
         focus_value_nodes = self.value_nodes(
             target_graph, focus_list, sparql_mode=executor.sparql_mode, debug=executor.debug
         )
-        filter_reports: bool = False
-        allow_conform: bool = False
         allowed_severities: Set[URIRef] = set()
         if executor.allow_infos:
             allowed_severities.add(SH_Info)
         if executor.allow_warnings:
             allowed_severities.add(SH_Info)
             allowed_severities.add(SH_Warning)
-        if executor.allow_infos or executor.allow_warnings:
-            if self.severity in allowed_severities:
-                allow_conform = True
-            else:
-                filter_reports = True
+        filter_reports: bool = len(allowed_severities) > 0
+
+        def _all_waived(_reps) -> bool:
+            all_allow = True
+            for v_str, v_node, v_parts in _reps:
+                severity_bits = list(filter(lambda p: p[0] == v_node and p[1] == SH_resultSeverity, v_parts))
+                if severity_bits:
+                    all_allow = all_allow and (severity_bits[0][2] in allowed_severities)
+            return all_allow
 
         non_conformant = False
+        # not_waived: some result so far has a severity that is not waived (equals non_conformant without waivers)
+        not_waived = False
         done_constraints = set()
         run_count = 0
         _evaluation_path.append(self)
@@ -779,39 +786,31 @@ class Shape(object):
                     self.logger.debug(f"Milliseconds to check constraint {str(c)}: {elapsed * 1000.0:.3f}ms")
                 if _is_conform:
                     self.logger.debug(f"DataGraph conforms to constraint {c}.")
-                elif allow_conform:
-                    self.logger.debug(f"Focus nodes do _not_ conform to constraint {c} but given severity is allowed.")
                 else:
                     self.logger.debug(f"Focus nodes do _not_ conform to constraint {c}.")
                     if lh_shape or (not rh_shape):
                         for v_str, v_node, v_parts in _reports:
                             self.logger.debug(v_str)
 
-            if _is_conform or allow_conform:
-                ...
-            elif filter_reports:
-                all_allow = True
-                for v_str, v_node, v_parts in _reports:
-                    severity_bits = list(filter(lambda p: p[0] == v_node and p[1] == SH_resultSeverity, v_parts))
-                    if severity_bits:
-                        all_allow = all_allow and (severity_bits[0][2] in allowed_severities)
-                non_conformant = non_conformant or (not all_allow)
-            else:
-                non_conformant = non_conformant or (not _is_conform)
+            non_conformant = non_conformant or (not _is_conform)
+            if not _is_conform:
+                not_waived = not_waived or (not filter_reports) or (not _all_waived(_reports))
             reports.extend(_reports)
             run_count += 1
             done_constraints.add(constraint_component)
-            if non_conformant and executor.abort_on_first:
+            if not_waived and executor.abort_on_first:
                 break
         applicable_custom_constraints = self.find_custom_constraints()
         for a in applicable_custom_constraints:
-            if non_conformant and executor.abort_on_first:
+            if not_waived and executor.abort_on_first:
                 break
             _e_p_copy2 = _evaluation_path[:]
             validator = a.make_validator_for_shape(self)
             _e_p_copy2.append(validator)
             _is_conform, _r = validator.evaluate(executor, target_graph, focus_value_nodes, _e_p_copy2)
             non_conformant = non_conformant or (not _is_conform)
+            if not _is_conform:
+                not_waived = not_waived or (not filter_reports) or (not _all_waived(_r))
             reports.extend(_r)
             run_count += 1
         if collect_stats:
@@ -819,4 +818,6 @@ class Shape(object):
             elapsed = t2 - t1
             self.logger.debug(f"Milliseconds to evaluate shape {str(self)}: {elapsed * 1000.0:.3f}ms")
         # print(_evaluation_path, "Passes" if not non_conformant else "Fails")
+        if top_level:
+            return (not not_waived), reports
         return (not non_conformant), reports
